@@ -65,6 +65,7 @@ func Check(w *symex.World, plan *Plan, opt Options) int {
 	var cands []cand
 	var natJobs []NativeJob
 	var incon []string
+	var undecided []string // best-effort cases whose queries the solvers did not finish (outside what this run covers)
 	funcs := map[string]int{}
 	stubs := map[string]int{}
 	assumptions := map[string]bool{}
@@ -81,7 +82,14 @@ func Check(w *symex.World, plan *Plan, opt Options) int {
 		if opt.Verbose {
 			fmt.Printf("JOB %s: %s panics=%v\n", jr.Job.Key(), ex.Summary(), ex.PanicsSeen)
 		}
+		be, _ := jr.Job.Case["best_effort"].(bool)
 		for _, in := range ex.Incon {
+			if be && strings.Contains(in.What, "solver unknown") {
+				// a best-effort case (a proof attempt known to sit at the edge of what the solvers finish): an undecided
+				// query is reported as not covered by this run, not as a failure of the check
+				undecided = append(undecided, fmt.Sprintf("%s: %s", jr.Job.Key(), in.What))
+				continue
+			}
 			incon = append(incon, fmt.Sprintf("%s: %s [%s]", jr.Job.Key(), in.What, in.Site))
 		}
 		for _, e := range jr.SolverEr {
@@ -309,6 +317,7 @@ func Check(w *symex.World, plan *Plan, opt Options) int {
 			"cross_validation":       map[string]int{"native_runs_compared_with_concrete_interpretation": xv.runs, "agree": xv.agree},
 			"known_findings_printed": sortedKeysB(knownPrinted),
 			"inconclusive":           incon,
+			"best_effort_undecided":  undecided,
 			"bounds":                 plan.Bounds,
 			"outside_the_claim":      plan.Outside,
 			"functions_encoded":      w.FunctionsEncoded(funcs),
@@ -322,6 +331,9 @@ func Check(w *symex.World, plan *Plan, opt Options) int {
 
 	fmt.Printf("%s %s: cases=%d paths=%d queries=%d (sat %d unsat %d unknown %d) solver=%.1fs assertions=%d (solver %d) counterexamples=%d replayed=%d reproduced=%d violations=%d known=%d inconclusive=%d wall=%.1fs\n",
 		plan.Property, opt.Tier, len(jobs), paths, queries, sat, unsat, unk, solverT.Seconds(), asserts, assertsSMT, len(cands), replayed, reproduced, violations, len(knownPrinted), len(incon), wall)
+	for _, u := range undecided {
+		fmt.Printf("UNDECIDED (best-effort case, not covered by this run): %.300s\n", u)
+	}
 	if violations > 0 {
 		return 1
 	}
